@@ -469,6 +469,8 @@ func initTopicP2P(t *Topic, sreg *ClientComMessage) error {
 		userData.public = sub1.GetPublic()
 		userData.trusted = sub1.GetTrusted()
 		userData.topicName = userID2.UserId()
+		// If the requester's subscription was read from the database, its Private is the stored one.
+		userData.private = sub1.Private
 		userData.modeWant = sub1.ModeWant
 		userData.modeGiven = sub1.ModeGiven
 		userData.delID = sub1.DelId
@@ -480,6 +482,7 @@ func initTopicP2P(t *Topic, sreg *ClientComMessage) error {
 			public:    sub2.GetPublic(),
 			trusted:   sub2.GetTrusted(),
 			topicName: userID1.UserId(),
+			private:   sub2.Private,
 			modeWant:  sub2.ModeWant,
 			modeGiven: sub2.ModeGiven,
 			delID:     sub2.DelId,
